@@ -398,6 +398,9 @@ pub fn run(ctx: &Ctx, replay: Option<&J>) -> i32 {
             ("fact = n => if n <= 1 then 1 else n * fact(n - 1)\noutput fact\noutput x = fact(5)".to_string(), vec!["fact".into(), "x".into()]),
             (many, many_keys),
             // `#name` is `inputs.name` whatever `inputs` means at that point
+            // the two spellings in closures that escape the scope in which `inputs` was rebound and are called
+            // where `inputs` means something else: every output is a list of pairs [#k, inputs.k] of equal members
+            ("mk = inputs => {h: () => #k, d: () => inputs.k, both: () => [#k, inputs.k]}\nfs = mk({k: \"shadow\"})\noutput e = [[fs.h(), fs.d()], fs.both()]\ng = do {\n  inputs = {k: \"local\"}\n  return [() => #k, () => inputs.k]\n}\noutput e2 = [[g[0](), g[1]()]]\noutput e3 = [(inputs => [fs.h(), fs.d()])({k: \"third\"}), (inputs => fs.both())({k: \"fourth\"})]".to_string(), vec!["e".into(), "e2".into(), "e3".into()]),
             ("output r = (inputs => [#k, inputs.k, #missing])({k: 2})\noutput d = do {\n  inputs = {k: 3, j: 4}\n  return [#k, inputs.k, #j, #missing]\n}\noutput p = [{k: 5}] via (inputs => [#k, inputs.k])".to_string(), vec!["r".into(), "d".into(), "p".into()]),
         ];
         // expected values of the last script (independent of the real inputs, which are empty here)
@@ -450,7 +453,13 @@ pub fn run(ctx: &Ctx, replay: Option<&J>) -> i32 {
                     _ => ordered = false,
                 }
             }
-            let values_ok = if *i == scripts.len() - 1 { objs.first().map(|o| json_eq(o, &shadow_expected)).unwrap_or(false) } else { true };
+            let values_ok = if *i == scripts.len() - 1 {
+                objs.first().map(|o| json_eq(o, &shadow_expected)).unwrap_or(false)
+            } else if *i == scripts.len() - 2 {
+                objs.first().and_then(|o| o.as_object()).map(|o| o.values().all(|v| v.as_array().map(|ps| !ps.is_empty() && ps.iter().all(|p| p.as_array().map(|p| p.len() == 2 && p[0] == p[1]).unwrap_or(false))).unwrap_or(false))).unwrap_or(false)
+            } else {
+                true
+            };
             if r.code != Some(0) || objs.len() != 1 || want != got || !ordered || !values_ok {
                 ctx.violation(Violation {
                     kind: "hand-script".into(),
